@@ -1,6 +1,10 @@
 """Translator plug-in for the signature-hash code (C03, C04): SIGHASH constants by
-introspection; struct formats, masks and HASH_ONE of RawSignatureHash / SignatureHash by
-`ast` (function-local literals).  -> coq/Gen/Sighash.v"""
+introspection; by `ast` (function-local literals): HASH_ONE and the struct format of
+RawSignatureHash, the mask literal of its `(hashtype & <mask>) == SIGHASH_NONE / SIGHASH_SINGLE`
+tests and the literal assigned to `.nSequence` in each of those branches (RSH_mask_*,
+RSH_seq_*), the SIGHASH_SINGLE filler output `CTxOut(...)` (constructor defaults by
+introspection: SINGLE_filler_*), the formats and literals of the BIP143 writer.
+Fail closed on any unexpected shape.  -> coq/Gen/Sighash.v"""
 import ast
 import extract_C01
 
